@@ -54,8 +54,8 @@ type Session struct {
 	// Poll: the transport's Read returns an empty slice (no error) when nothing is pending, as the
 	// transport interface allows, instead of blocking.
 	Poll bool `json:"poll,omitempty"`
-	// LateEcho > 0: the second half of the echo of command LateEcho-1 reaches the transport 3 s late
-	// (operation timeout 8 s for the session): late, but well inside the operation's time.
+	// LateEcho > 0: the second half of the echo of command LateEcho-1 reaches the transport 4 s late
+	// (operation timeout 12 s for the session): late, but well inside the operation's time.
 	LateEcho int `json:"late_echo,omitempty"`
 	// Huge: the first command's output holds one line of 65 536..70 000 bytes.
 	Huge bool       `json:"huge,omitempty"`
@@ -432,7 +432,7 @@ func RunSession(s Session, h *Hooks) mon.Result {
 		options.WithTimeoutOps(30 * time.Second),
 	}
 	if s.LateEcho > 0 {
-		opts = append(opts, options.WithTimeoutOps(8*time.Second))
+		opts = append(opts, options.WithTimeoutOps(12*time.Second))
 	}
 	if h != nil {
 		opts = append(opts, h.ExtraOpts...)
@@ -503,7 +503,8 @@ func RunSession(s Session, h *Hooks) mon.Result {
 		keptCopy = append(keptCopy, append([]byte(nil), b...))
 	}
 	bad := func(key, f string, a ...interface{}) mon.Result {
-		if strings.HasPrefix(key, "c01/error:errTimeoutError") {
+		// (the network driver folds a timeout of its own prompt check into a privilege error)
+		if strings.HasPrefix(key, "c01/error:errTimeoutError") || (nd != nil && strings.HasPrefix(key, "c01/error:errPrivilegeError")) {
 			// "timed out" is a verdict only if the transport model had handed over everything the
 			// device generated (minus the held-back prompt space): otherwise the reader was merely
 			// slow (1-byte reads on a loaded machine) and the case says nothing
@@ -537,7 +538,7 @@ func RunSession(s Session, h *Hooks) mon.Result {
 		done := make(chan struct{})
 		go func() {
 			select {
-			case <-time.After(3 * time.Second):
+			case <-time.After(4 * time.Second):
 			case <-done:
 			}
 			conn.Release()
@@ -776,7 +777,7 @@ func RunSession(s Session, h *Hooks) mon.Result {
 		fmt.Sprintf("readsize=%d", s.ReadSize), "seg="+s.Seg.Mode, fmt.Sprintf("readdelay=%dus", s.ReadDelay),
 		fmt.Sprintf("returnchar=%q", s.ReturnChar), fmt.Sprintf("wrap=%q", s.Wrap), fmt.Sprintf("psd_is_minimal=%v", s.PSD < 1000))
 	if s.LateEcho > 0 {
-		obs["sessions_with_an_echo_delivered_3s_late"]++
+		obs["sessions_with_an_echo_delivered_4s_late"]++
 	}
 	if s.WrapEvery > 0 && s.WrapEvery <= 2 {
 		for _, c := range s.Cmds {
